@@ -51,3 +51,28 @@ PROPS["C15"] = {
     "assumptions": ["HashMap::get/insert behave as a finite map", "the model's fidelity outside the generated op sequences rests on reading the 20-line store/retrieve code"],
     "finding_key": lambda sf: None,
 }
+
+PROPS["C14"] = {
+    "level": "proof",
+    "budget": {"quick": [("c14", 4000)], "thorough": [("c14", 300000)], "search": [("c14", 600000)]},
+    "rule": "valid positions (play-outs from a 27-FEN corpus + constructed positions filtered by Valid) and a malformed stream (overlapping/arbitrary bitboards), evaluated in random order on ONE shared Evaluator with re-evaluations of earlier boards; every valid board is also evaluated side-flipped and mirrored; non-trivial = distinct board with a non-zero score",
+    "trusted_base": [KERNEL, AXIOMS, TIE, EXTRACT, "i32 modelled as Int (no-overflow theorem covers every 8-bitboard input); Rust `/` = Int.tdiv"],
+    "assumptions": ["BitboardIterator yields the set bits in ascending order (modelled; equivalence with the lsb loop is proved in Lemmas/BitIter when present)", "PieceCountOK (<= 16 men a side, one king each) for the magnitude bound"],
+    "finding_key": lambda sf: None,
+}
+PROPS["C11"] = {
+    "level": "proof",
+    "budget": {"quick": [("c11", 400)], "thorough": [("c11", 40000)], "search": [("c11", 80000)]},
+    "rule": "for each REAL key draw (ZobristTable::new(), 837 keys, KeysGood checked) 40 boards (valid + malformed): hash vs model vs XOR-of-features spec; counter variants must hash equal; every single-component edit (side, each right, ep, man removed/recoloured/retyped/moved) must hash different; transposed move orders must hash equal; distinct = distinct boards",
+    "trusted_base": [KERNEL, AXIOMS, TIE, "rand::thread_rng is not modelled: theorems quantify over all key tables; KeysGood (837 keys non-zero, pairwise distinct) is checked on every draw the run makes"],
+    "assumptions": ["sensitivity to single-component changes needs KeysGood keys; P(not KeysGood) < 1.9e-14 per process under a uniform generator (remark, not a theorem)"],
+    "finding_key": lambda sf: None,
+}
+PROPS["C12"] = {
+    "level": "proof",
+    "budget": {"quick": [("c12", 5000)], "thorough": [("c12", 400000)], "search": [("c12", 800000)]},
+    "rule": "go commands through the REAL parser (hook verif_go_budget): the four clock pairs in random order, pairs missing, values from {0,1,4999,5000,5001,5025,random up to 2^40}; irregular stream with depth/movetime/infinite/junk/missing values/bad numbers; for every well-formed command a twin with the opponent's values replaced must give the same budget and both must fit the mover's clock; distinct = distinct command texts",
+    "trusted_base": [KERNEL, AXIOMS, TIE, EXTRACT, "u64 milliseconds modelled as Nat (no_u64_overflow covers values below 2^62 ms)", "str::split_whitespace / str::parse::<u64> modelled by digitsVal/parseU64 over List Char"],
+    "assumptions": ["clock values below 2^62 ms", "hook verif_go_budget observes the parameters handle_go_command hands to find_best_move"],
+    "finding_key": lambda sf: None,
+}
